@@ -132,7 +132,7 @@ def main(tier: str) -> int:
 
     from .. import readergraph as rg  # noqa: PLC0415
 
-    graph_unis = ["triples-names", "quads-prefix"] + (["graphs-datatype"] if tier == "thorough" else [])
+    graph_unis = ["triples-names", "quads-prefix", "triples-star-s", "triples-star-o"] + (["graphs-datatype"] if tier == "thorough" else [])
     with ThreadPoolExecutor(10) as ex:
         graphs_f = [ex.submit(rg.explore, u) for u in graph_unis]
         sims = list(ex.map(sim, jobs))
@@ -146,7 +146,7 @@ def main(tier: str) -> int:
         except AttributeError as ex:
             run.model_drift(f'state projection of Decoder unavailable ({ex}): reader state-graph comparison skipped')
             break
-        for integ_ in ("generic", "rdflib"):      # the universes are RDF 1.1: both integrations' adapters sit on the same Decoder
+        for integ_ in (("generic",) if u in rg.RDF_STAR else ("generic", "rdflib")):      # RDF 1.1 universes: both integrations' adapters sit on the same Decoder
             st = rg.walk(u, edges, faults_at={}, integ=integ_,
                          on_violation=lambda clause, what, rp, u=u, integ_=integ_: run.violation(
                              {"clause": clause, "binding": "reader-state-graph", "universe": u, "integ": integ_}, what, rp),
